@@ -169,7 +169,9 @@ fn disclosure_api(ctx: &mut Ctx, rng: &mut Rng, rounds: usize) {
 /// to every reader and is not expected back: this stream judges conformance only.)
 fn claims_with_sd_alg_member(ctx: &mut Ctx) {
     let values = [json!("sha-384"), json!("sha-512"), json!("sha-256"), json!("md5"), json!(5), json!(null)];
-    let orders: [&[&str]; 3] = [&["/a", "/list/0", "/o/k"], &["/list/1", "/o/k", "/o", "/a"], &["/list/0"]];
+    // (the last two name the issuer's own bookkeeping member after it came into being: the issuer declines, or what
+    // it issues is conformant all the same)
+    let orders: [&[&str]; 5] = [&["/a", "/list/0", "/o/k"], &["/list/1", "/o/k", "/o", "/a"], &["/list/0"], &["/a", "/_sd"], &["/o/k", "/o/_sd", "/a"]];
     for (vi, v) in values.iter().enumerate() {
         for (oi, order) in orders.iter().enumerate() {
             let claims = json!({"_sd_alg": v, "a": 1, "list": ["p", "q"], "o": {"k": true, "m": "z"}});
@@ -177,7 +179,7 @@ fn claims_with_sd_alg_member(ctx: &mut Ctx) {
             real::set_current(&case);
             ctx.report.evaluations += 1;
             ctx.report.nontrivial_case(&case);
-            let alg = crate::keys::ALL_ALGS[(vi * 3 + oi) % crate::keys::ALL_ALGS.len()].clone();
+            let alg = crate::keys::ALL_ALGS[(vi * 5 + oi) % crate::keys::ALL_ALGS.len()].clone();
             let mut header = sdjwt::Header::new(alg.clone());
             header.typ = Some("sd-jwt".to_string());
             let paths: Vec<String> = order.iter().map(|p| p.to_string()).collect();
